@@ -32,9 +32,14 @@ where
     T: Hash + Eq + Clone + Ord + Display + Send + Sync,
     A: Clone + Send + Sync,
 {
-    let neighbors_map = get_neighbors_of_nodes(node_names, graph);
-    neighbors_map
-        .clone()
+    let requested = get_neighbors_of_nodes(node_names, graph);
+    // the neighbors of the requested nodes are usually not themselves requested,
+    // so their neighbor sets have to come from the whole graph
+    let neighbors_map = match node_names {
+        Some(names) if !names.is_empty() => get_neighbors_of_nodes(None, graph),
+        _ => requested.clone(),
+    };
+    requested
         .into_iter()
         .map(|(v, v_nbrs)| get_triangles_and_degrees_for_node(v, v_nbrs, &neighbors_map))
         .collect()
